@@ -735,7 +735,7 @@ pub fn run(ctx: &Ctx) -> (Report, String) {
     if ctx.is_main() {
         let m = ctx.scale_pct;
         rep.require("operations_compared", if thorough { 300_000_000 } else { 15_000_000 } * m / 100);
-        for k in ["op:read:ok", "op:read:eof", "op:read:width-error", "op:read_signed:ok", "op:peek:ok", "op:skip:eof", "op:read_vlc:ok", "op:read_vlc:eof", "op:transaction:err", "op:transaction_union:none", "op:lookahead:ok", "op:commit:ok", "op:grow:ok", "op:start_code:found", "op:start_code:none", "op:start_code:eof", "op:start_code_in_error:found", "reads_straddling_end", "histories_over_an_interrupting_source", "phase0", "phase1", "phase2", "phase3", "phase4", "phase5", "phase6", "phase7"] {
+        for k in ["op:read:ok", "op:read:eof", "op:read:width-error", "op:read_signed:ok", "op:peek:ok", "op:skip:eof", "op:read_vlc:ok", "op:read_vlc:eof", "op:transaction:err", "op:transaction_union:none", "op:lookahead:ok", "op:commit:ok", "op:grow:ok", "op:start_code:found", "op:start_code:none", "op:start_code:eof", "op:start_code_in_error:found", "reads_straddling_end", "histories_over_an_interrupting_source", "long_histories", "phase0", "phase1", "phase2", "phase3", "phase4", "phase5", "phase6", "phase7"] {
             rep.require(k, 100);
         }
     }
@@ -783,7 +783,12 @@ fn shard(ctx: &Ctx, s: usize, n_random: u64, thorough: bool, rep: &mut Report) {
     let mut rng = Rng::new(ctx.seed ^ 0xC14, s as u64);
     for i in 0..n_random {
         let src = random_source(&mut rng, ctx.miri());
-        let nops = 20 + rng.below(181) as usize;
+        // mostly 20-200 operations; now and then a long history (counters, buffer turnover after hundreds of operations)
+        let long_history = !ctx.miri() && rng.chance(1, 40);
+        if long_history {
+            rep.count("long_histories");
+        }
+        let nops = if long_history { 400 + rng.below(2600) as usize } else { 20 + rng.below(181) as usize };
         let ops: Vec<Op> = (0..nops).map(|_| random_op(&mut rng, 0, tabs.len(), true)).collect();
         let interrupts = if rng.chance(1, 4) { 1000 * (2 + rng.below(4) as usize) } else { 0 };
         if interrupts > 0 {
